@@ -7,6 +7,8 @@
 (*   QD, psi[n][a]      action strategy: Pr(a | node n) = psi[n][a] / QD                   *)
 (*   ED, eta[n][a][o][k] node strategy: Pr(next node k | n, a, o) = eta[n][a][o][k] / ED   *)
 (*   ND, iota[n]        initial node distribution iota[n] / ND                             *)
+(*   lst[s]             1 iff s is in the state list the implementation works on (all       *)
+(*                      states, or the reachable ones); used by the value oracle only        *)
 (* Definition of the controller (Meuleau et al. 1999; Poupart & Boutilier 2003): the       *)
 (* controller is in ONE hidden node n; it draws a ~ psi[n]; the world moves s -> t, emits   *)
 (* o ~ O[a][t]; the controller moves to k ~ eta[n][a][o].  An episode ends on entering an   *)
@@ -110,7 +112,15 @@ EDen(m, k) == Safe(m.ID * Pow(Safe(m.PD * m.OD), k))
 \* of the property).  cut = FALSE: absorbing states are treated like any other state and keep their
 \* declared outgoing rows (NOT the semantics; a named alternative used only to classify divergences).
 \*   V[n][s] = rew(n, s) / (QD PD) + (GN / GD) Sum_{k, t} coef(n, s, k, t) / CD * V[k][t]
-VStates(m, cut) == IF cut THEN NonAbs(m) ELSE St(m)
+\* Both chains live on the listed states: the list contains the initial support and is closed under the
+\* successors of its non-absorbing members (ListClosed), so for cut = TRUE nothing is lost; for
+\* cut = FALSE the mass an absorbing state's declared row sends outside the list is dropped, which is what
+\* an array-based implementation that "does not expand absorbing states" does.
+Lst(m) == {s \in St(m) : m.lst[s] = 1}
+ListClosed(m) ==
+  /\ InitSupp(m) \subseteq Lst(m)
+  /\ \A s \in Lst(m) \ ExplAbs(m) : \A a \in Ac(m) : Succ(m, s, a) \subseteq Lst(m)
+VStates(m, cut) == IF cut THEN Lst(m) \ ExplAbs(m) ELSE Lst(m)
 PairSeq(m, cut) ==
   LET ss == SeqOfSet(VStates(m, cut), m.N)
   IN [i \in 1..(m.NN * Len(ss)) |-> <<((i - 1) \div Len(ss)) + 1, ss[((i - 1) % Len(ss)) + 1]>>]
@@ -120,11 +130,11 @@ Coef(m, n, s, k, t) ==
      IF m.psi[n][a] = 0 \/ m.P[s][a][t] = 0 THEN 0
      ELSE Safe(Safe(m.psi[n][a] * m.P[s][a][t]) *
                SumTo([o \in Ob(m) |-> m.O[a][t][o] * m.eta[n][a][o][k]], m.NO))], m.K)
-\* numerator over QD * PD of the expected immediate reward at (node n, state s)
+\* numerator over QD * PD of the expected immediate reward at (node n, state s), over listed successors
 RewN(m, n, s) ==
   SumTo([a \in Ac(m) |->
      IF m.psi[n][a] = 0 THEN 0
-     ELSE Safe(m.psi[n][a] * SumTo([t \in St(m) |-> m.P[s][a][t] * m.R[s][a][t]], m.N))], m.K)
+     ELSE Safe(m.psi[n][a] * SumTo([t \in St(m) |-> IF m.lst[t] = 1 THEN m.P[s][a][t] * m.R[s][a][t] ELSE 0], m.N))], m.K)
 
 \* the linear system (GD CD I - GN C) x = GD OD ED rew, each equation divided by the gcd of its entries
 RawRow(m, pr, k, i) ==
@@ -183,6 +193,6 @@ SolvesSystem(vs) ==
 
 \* some explicitly absorbing state declares outgoing dynamics other than a zero-reward self-loop
 GhostMatters(m) ==
-  \E s \in ExplAbs(m) : \E a \in Ac(m) :
+  \E s \in ExplAbs(m) \cap Lst(m) : \E a \in Ac(m) :
      m.P[s][a][s] # m.PD \/ \E t \in St(m) : m.P[s][a][t] > 0 /\ m.R[s][a][t] # 0
 =============================================================================
